@@ -216,6 +216,74 @@ func renameFails(shards int, dir string) []failure {
 	return nil
 }
 
+// blockFile makes the data file of key k unremovable (a non-empty directory takes its place; the file is kept aside);
+// the returned function puts the file back.
+func blockFile(dir string, k cache.CacheKey) (restore func()) {
+	p := filepath.Join(dir, k.Hex)
+	aside := p + ".aside"
+	os.Rename(p, aside)
+	os.MkdirAll(filepath.Join(p, "pin"), 0755)
+	return func() {
+		os.RemoveAll(p)
+		os.Rename(aside, p)
+	}
+}
+
+// removeFailsThenStore (file backend): the removal of an entry's file fails (anything but "not there"); later the same
+// key is stored again. One key, one file: one entry and its bytes are reported.
+func removeFailsThenStore(shards int, dir string) []failure {
+	cfg := config.NewDefault()
+	ctx, cancel := context.WithCancel(context.Background())
+	defer cancel()
+	metrics.Global.Cache.BytesCached.Set(0)
+	metrics.Global.Cache.CacheEntries.Set(0)
+	c := newCacheLimit("file", cfg, shards, ctx, dir, 1<<30)
+	defer c.Destroy()
+	k := cache.FromString("remove-fails-key")
+	put(c, k, 10, 1)
+	restore := blockFile(dir, k)
+	c.Delete(k) // cannot remove the file
+	restore()
+	put(c, k, 10, 2)
+	_, entries, bs, mb, me := counters(c)
+	var disk int64
+	files := 0
+	ents, _ := os.ReadDir(dir)
+	for _, de := range ents {
+		if fi, err := de.Info(); err == nil && !de.IsDir() {
+			disk += fi.Size()
+			files++
+		}
+	}
+	if bs != disk || mb != bs || me != int64(files) || entries != files {
+		return []failure{{"remove-fails-then-store", "file", shards, fmt.Sprintf("the removal of an entry's file failed, then the key was stored again: the directory holds %d bytes in %d files, the index has %d entries, the byte counter says %d, the metrics %d bytes / %d entries", disk, files, entries, bs, mb, me)}}
+	}
+	return nil
+}
+
+// evictPastUnremovable (file backend): the least recently used victim cannot be removed; the eviction goes on with the
+// next ones until the target is reached.
+func evictPastUnremovable(shards int, dir string) []failure {
+	cfg := config.NewDefault()
+	ctx, cancel := context.WithCancel(context.Background())
+	defer cancel()
+	c := newCacheLimit("file", cfg, shards, ctx, dir, 1<<30)
+	defer c.Destroy()
+	keys := []cache.CacheKey{cache.FromString("ev-a"), cache.FromString("ev-b"), cache.FromString("ev-c"), cache.FromString("ev-d")}
+	base := time.Now()
+	for i, k := range keys {
+		put(c, k, 300, i)
+		c.VerifSetLastAccess(k.Hex, base.Add(-time.Duration(40-10*i)*time.Second)) // ev-a is the least recently used
+	}
+	restore := blockFile(dir, keys[0])
+	defer restore()
+	c.VerifEvict(1000) // target 800 bytes; 1200 are held
+	if got := c.VerifByteSize(); got > 800 {
+		return []failure{{"evict-past-unremovable", "file", shards, fmt.Sprintf("eviction to a limit of 1000 (target 800) with 4 x 300 bytes held and an unremovable least-recently-used victim: %d bytes are still held — the eviction stopped at the victim it could not remove", got)}}
+	}
+	return nil
+}
+
 // lateDestroy (file backend): a cache instance is re-created over the same directory (what a reconfiguration does) and the
 // OLD instance is destroyed only afterwards. The new instance's counters still describe what its directory holds.
 func lateDestroy(shards int, dir string) []failure {
@@ -484,6 +552,12 @@ func main() {
 				failures = append(failures, overwriteWindow(backend, shards, dir)...)
 				dist["overwrite-window/"+backend]++
 				total++
+				if backend == "file" {
+					failures = append(failures, evictPastUnremovable(shards, dir+"-eu")...)
+					os.RemoveAll(dir + "-eu")
+					dist["evict-past-unremovable/file"]++
+					total++
+				}
 			case "C12":
 				f, forced := evictDuringOverwrite(backend, shards, dir)
 				failures = append(failures, f...)
@@ -493,6 +567,10 @@ func main() {
 					failures = append(failures, renameFails(shards, dir+"-rf")...)
 					os.RemoveAll(dir + "-rf")
 					dist["rename-fails/file"]++
+					failures = append(failures, removeFailsThenStore(shards, dir+"-rs")...)
+					os.RemoveAll(dir + "-rs")
+					dist["remove-fails-then-store/file"]++
+					total++
 					failures = append(failures, lateDestroy(shards, dir+"-ld")...)
 					os.RemoveAll(dir + "-ld")
 					dist["late-destroy-of-old-instance/file"]++
@@ -516,7 +594,7 @@ func main() {
 	}
 	out := map[string]any{
 		"harness": "cachesched/" + *flagProp, "seed": *flagSeed, "tier": *flagTier, "total": total, "distinct": total, "distinct_nontrivial": total,
-		"rule":         "forced schedules at the cache API, both backends, 1 and 8 lock shards: C03 lock-wait (Get / GetMetadata wait 400 ms for the entry's lock while the entry's 150 ms lifetime ends: must report stale); C13 overwrite-window (a store of another key between the two counter updates of an overwriting store, cache below its limit throughout: nothing evicted); C12 evict-during-overwrite (an eviction candidate overwritten with another length between scan and removal: counters equal what is stored), rename-fails (file: the temp file vanishes before the final rename, for a new key and for an overwrite) late-destroy-of-old-instance (file: a new instance over the same directory, the old one destroyed afterwards) and budget-to-zero (memory: budget changed to 0 % at run time with entries stored); C06 update-during-store (UpdateMetadata issued while a full store of the same key is downloading: afterwards the key holds the new body with the new object metadata)",
+		"rule":         "forced schedules at the cache API, both backends, 1 and 8 lock shards: C03 lock-wait (Get / GetMetadata wait 400 ms for the entry's lock while the entry's 150 ms lifetime ends: must report stale); C13 overwrite-window (a store of another key between the two counter updates of an overwriting store, cache below its limit throughout: nothing evicted); C13 evict-past-unremovable (file: the least recently used victim cannot be removed, the eviction goes on to the target); C12 remove-fails-then-store (file: a failed removal, then the key stored again), evict-during-overwrite (an eviction candidate overwritten with another length between scan and removal: counters equal what is stored), rename-fails (file: the temp file vanishes before the final rename, for a new key and for an overwrite) late-destroy-of-old-instance (file: a new instance over the same directory, the old one destroyed afterwards) and budget-to-zero (memory: budget changed to 0 % at run time with entries stored); C06 update-during-store (UpdateMetadata issued while a full store of the same key is downloading: afterwards the key holds the new body with the new object metadata)",
 		"distribution": map[string]any{"scenario": dist},
 		"samples":      []any{map[string]any{"backend": "file", "shards": 1}},
 		"files":        []string{}, "readable": []any{},
